@@ -126,5 +126,3 @@ func firstN(s string, n int) string {
 func indent(s, p string) string {
 	return p + strings.ReplaceAll(s, "\n", "\n"+p)
 }
-
-func cmdCheck(args []string) int { return 2 }
